@@ -58,10 +58,13 @@ BOXES = [("Box<dyn StdError + 'static>", "bid0"), ("Box<dyn StdError + Send + 's
          ("Box<dyn StdError + Send + Sync + 'static>", "bid2")]
 BT_SPELLINGS = ["Backtrace", "std::backtrace::Backtrace", "backtrace::Backtrace", "::std::backtrace::Backtrace"]
 
-K_PANIC = "known:tuple2-ignore-backtrace-panic"
-K_ENUM = "known:enum-ignore-before-source"
-K_ENUM_BT = "known:enum-ignore-before-backtrace"
-K_BOUND = "known:generic-struct-ignore-before-source"
+# Names (ordinary violation keys, nothing is suppressed) for the symptoms of the defect repaired in
+# /repo commit 0fb2c1c: positions among the enabled fields used as positions among all fields.  They
+# are given only when the observation is exactly what that defect model predicts for the layout.
+K_PANIC = "index-shift:tuple2-ignore-backtrace-panic"
+K_ENUM = "index-shift:enum-ignore-before-source"
+K_ENUM_BT = "index-shift:enum-ignore-before-backtrace"
+K_BOUND = "index-shift:generic-struct-ignore-before-source"
 
 
 # ---------------------------------------------------------------------------------------------
@@ -77,6 +80,12 @@ class Layout:
 
     def sig(self):
         return (self.named, tuple(self.fields))
+
+    def msig(self):
+        """Identity for the metamorphic relation: named selection does not depend on field classes."""
+        if self.named:
+            return (True, tuple((f[0], f[1]) for f in self.fields))
+        return self.sig()
 
     def flags(self, i):
         return ATTRS_X[self.fields[i][1]]
@@ -312,7 +321,7 @@ def struct_case(cid, L, rng, generic, rich=True):
             nev += 1
     body.append("obs(\"m.src\", &source_id(StdError::source(&v)));")
     meta = {"what": "struct S%s" % L.text(), "kind": "struct", "decl": decl, "generic": bool(C.param)}
-    c = Case(cid, ("struct",) + cls_of(L), items, "\n".join(body), expect=nev, meta=meta, trivial=(L.n == 0))
+    c = Case(cid, ("struct", "generic" if C.param else "concrete") + cls_of(L), items, "\n".join(body), expect=nev, meta=meta, trivial=(L.n == 0))
     c.meta["_L"] = L
     c.meta["_C"] = C
     c.meta["_vals"] = [("m", L, C, False)]
@@ -388,7 +397,7 @@ def enum_case(cid, L, rng, generic, variant_ignored=False, rich=True):
     items = "#[derive(Debug, derive_more::Error)]\n%s\n%s" % (decl, DISPLAY % (g, "E", g))
     meta = {"what": "enum variant %sM%s" % ("#[error(ignore)] " if variant_ignored else "", L.text()), "kind": "enum", "decl": decl,
             "generic": bool(C.param), "variant_ignored": variant_ignored}
-    c = Case(cid, ("enum",) + cls_of(L) + (("variant-ignored",) if variant_ignored else ()), items, "\n".join(body), expect=nev, meta=meta,
+    c = Case(cid, ("enum", "generic" if C.param else "concrete") + cls_of(L) + (("variant-ignored",) if variant_ignored else ()), items, "\n".join(body), expect=nev, meta=meta,
              trivial=(L.n == 0))
     c.meta["_L"] = L
     c.meta["_C"] = C
@@ -522,8 +531,8 @@ def real_backtrace(C, i):
 
 
 def classify_compile_error(c, diags):
-    """Key of a compile failure of a must-compile case.  The `known:` keys are given only when every
-    diagnostic is the symptom that the defect model predicts for exactly this layout."""
+    """Key of a compile failure of a must-compile case.  The `index-shift:` keys are given only when
+    every diagnostic is the symptom that the defect model predicts for exactly this layout."""
     L, C = c.meta["_L"], c.meta["_C"]
     normal = "compile:%s:%s:%s" % (c.meta["kind"], "named" if L.named else "tuple", how(L))
     if c.meta.get("variant_ignored"):
@@ -587,7 +596,7 @@ def resolve(evs, prefix):
     return "unknown", src, ids
 
 
-def check_case(ctx, c, res, results):
+def check_case(ctx, c, res, results, by_msig):
     L, C = c.meta["_L"], c.meta["_C"]
     ctx.count()
     if not c.trivial:
@@ -621,7 +630,8 @@ def check_case(ctx, c, res, results):
     kind = c.meta["kind"]
     base = "%s:%s:%s" % (kind, "named" if L.named else "tuple", how(L))
     detail = dict(case=pub, items=c.items, body=c.body, observed=raw, field_ids=ids, model={"status": st, "expect": exp, "allowed": sorted(allowed, key=str)})
-    results[(kind, L.sig(), bool(c.meta.get("variant_ignored")))] = got
+    results[(kind, L.msig(), bool(c.meta.get("variant_ignored")))] = got
+    by_msig[L.msig()] = L
     if got == "unknown":
         ctx.violate("foreign-source:" + base, "%s: source() returned %s which is none of the value's fields %s" % (c.meta["what"], raw, ids), **detail)
     elif st == "definite":
@@ -662,7 +672,7 @@ def metamorphic(ctx, results, by_sig):
             if L.fields[j][1] != "-" or j == r or j in sel:
                 continue      # only fields that are neither the documented nor the observed source
             L2 = L.with_attr(j, "ignore")
-            r2 = results.get((kind, L2.sig(), False), "absent")
+            r2 = results.get((kind, L2.msig(), False), "absent")
             if r2 in ("absent", "unknown"):
                 continue
             ctx.bump("metamorphic_pairs")
@@ -698,7 +708,7 @@ def run(ctx):
             raise Inconclusive("corner layout rejected by the generator's own validity rules: %r" % (fs,))
     n_enum_space = None
     if ctx.quick():
-        target = 520
+        target = 1500
         tries = 0
         while len(layouts) < target and tries < 200000:
             tries += 1
@@ -720,28 +730,28 @@ def run(ctx):
             add(classes_for_named(names, at, rng))
         tries = 0
         extra = 0
-        while extra < 1200 and tries < 200000:
+        while extra < 2000 and tries < 400000:
             tries += 1
             L, named, at = random_layout(rng)
             if add(L):
                 extra += 1
         ctx.exhaustive = False
     rng.shuffle(layouts)
-    by_sig = {L.sig(): L for L in layouts}
+    by_msig = {}
 
     stable, nightly = [], []
     k = 0
+    reps = ctx.pick(1, 2)      # thorough: every layout both without and with type parameters
     for L in layouts:
         k += 1
-        rich = True
-        sc = struct_case("s%d" % k, L, rng, generic=rng.random() < 0.45, rich=rich)
-        vig = L.n > 0 and rng.random() < 0.06
-        ec = enum_case("e%d" % k, L, rng, generic=rng.random() < 0.45, variant_ignored=vig, rich=rich)
-        extra = []
-        if vig:
-            extra.append(enum_case("f%d" % k, L, rng, generic=rng.random() < 0.45, variant_ignored=False, rich=rich))
-        for c in [sc, ec] + extra:
-            (nightly if needs_nightly(L) else stable).append(c)
+        for rep in range(reps if L.n else 1):
+            gs, ge = (rng.random() < 0.45, rng.random() < 0.45) if reps == 1 else (rep == 1, rep == 1)
+            sc = struct_case("s%d_%d" % (k, rep), L, rng, generic=gs)
+            vig = L.n > 0 and rng.random() < 0.06
+            ec = enum_case("e%d_%d" % (k, rep), L, rng, generic=ge, variant_ignored=vig)
+            extra = [enum_case("f%d_%d" % (k, rep), L, rng, generic=ge, variant_ignored=False)] if vig else []
+            for c in [sc, ec] + extra:
+                (nightly if needs_nightly(L) else stable).append(c)
 
     amb = ambiguous_layouts(rng, ctx.pick(40, None))
     mf = []
@@ -757,9 +767,10 @@ def run(ctx):
     ctx.rule = ("layouts: struct / enum variant (with 0-3 sibling variants of certain outcome, at a random position), named or positional, 0-3 fields; per field an attribute from "
                 "{-, source, not(source), backtrace, not(backtrace), ignore} (+ `backtrace, source` and `source, not(backtrace)` in the random part), a name from {source, backtrace, other...} "
                 "and a class from {error (Leaf | Box<dyn Error [+Send[+Sync]]> | type parameter = Leaf), type named Backtrace (4 spellings of std's), plain (i32 | alias of Backtrace | type parameter = i32)}; "
-                "only layouts whose possibly-selected fields are errors and whose possibly-detected backtrace is a real Backtrace are emitted; quick = fixed corner list + seeded sample with "
-                "`ignore` partners, thorough = every positional (attribute x class) assignment and every named (name x attribute) assignment + a seeded sample of the extended space; "
-                "every layout is derived as a struct and as an enum variant, ~45% generic; distinct = (struct|enum, named|tuple, arity, attributes, classes, names); zero-field layouts are trivial")
+                "only layouts whose possibly-selected fields are errors and whose possibly-detected backtrace is a real Backtrace are emitted; quick = fixed corner list + seeded sample of 1500 layouts with "
+                "`ignore` partners, thorough = every positional (attribute x class) assignment and every named (name x attribute) assignment (classes random) + 2000 seeded layouts of the extended space; "
+                "every layout is derived as a struct and as an enum variant (quick: ~45% with type parameters, thorough: once without and once with), 6% of the variants additionally with a variant-level ignore; "
+                "40 (quick) / all (thorough) layouts with two explicit sources must be rejected; distinct = (struct|enum, generic?, named|tuple, arity, attributes, classes, names); zero-field layouts are trivial")
     ctx.assumptions += [
         "rt::Leaf values with distinct payloads at distinct addresses make the identity of the returned object observable (payload and address must both match a field)",
         "layouts with a detectable backtrace field only compile on nightly (provide() is unstable); they are built with `RUSTUP_TOOLCHAIN=nightly` and #![feature(error_generic_member_access)], the rest with the default toolchain",
@@ -782,9 +793,9 @@ def run(ctx):
         res = l2.build_and_run(ctx, name, cases, prelude=PRELUDE, header=header, cargo_env=cenv, nshards=min(common.NCPU, max(1, len(cases) // 8)))
         ctx.extra["build_rounds_" + name] = res.rounds
         for c in cases:
-            check_case(ctx, c, res, results)
+            check_case(ctx, c, res, results, by_msig)
         allcases.append((cases, res))
-    metamorphic(ctx, results, by_sig)
+    metamorphic(ctx, results, by_msig)
 
     # ambiguous selections must be rejected
     if mf:
